@@ -385,12 +385,14 @@ static void discCase(Rng & rng) {
 }
 
 // ------------------------------------------------------------------------------------------ AMDP
-template <bool Sparse> static void amdpCase(Rng & rng, long idx) {
+template <bool Sparse> static void amdpCase(Rng & rng, long idx, size_t forceS = 0, size_t forceBuckets = 0) {
     size_t S = (size_t)rng.range(1 + (idx % 5 != 0), 4), A = (size_t)rng.range(1, 3), O = (size_t)rng.range(1, 3);
+    if (forceS) S = forceS;
     auto pt = verif::randomPomdp(rng, S, A, O);
     auto model = verif::toDense(pt);
     const auto model2 = model;     // same internal generator state: BeliefGenerator samples through the model
     size_t nBeliefs = (size_t)rng.range(1, 8), buckets = (size_t)rng.range(1, 8);
+    if (forceBuckets) buckets = forceBuckets;
     unsigned seed = (unsigned)rng.below(1u << 30);
     POMDP::AMDP amdp(nBeliefs, buckets);
     const size_t S1 = S * buckets;
@@ -544,6 +546,141 @@ static void coopCase(Rng & rng, int force = 0) {   // force: 1 = well-formed arg
     stat("coop:" + err); stat("coop_tmode:" + std::to_string(tmode > 3 ? 4 : tmode)); if (nB) stat("coop_bmode:" + std::to_string(bmode > 3 ? 4 : bmode));
 }
 
+// ------------------------------------------------------------------------------------------ learned / factored models derived by the library
+//   C06 lm <file> <class> <op> <arg> <discount before> | <err> <discount after> <nrows> (len entries…)*
+template <class M> static void lmRowsFlat(Line & l, const M & m) {
+    const size_t S = m.getS(), A = m.getA();
+    l << S * A;
+    for (size_t s = 0; s < S; ++s) for (size_t a = 0; a < A; ++a) { l << S; for (size_t s1 = 0; s1 < S; ++s1) l << (double)m.getTransitionProbability(s, a, s1); }
+}
+template <class M> static void lmRowsCoop(Line & l, const M & m) {
+    const auto & tr = m.getTransitionFunction().transitions;
+    size_t n = 0; for (auto & t : tr) n += t.rows();
+    l << n;
+    for (auto & t : tr) for (long j = 0; j < t.rows(); ++j) { l << (size_t)t.cols(); for (long x = 0; x < t.cols(); ++x) l << (double)t(j, x); }
+}
+template <class M, class Rows, class Fn> static void lmOp(const char * file, const char * cls, const char * op, double arg, M & m, Rows rows, Fn && fn) {
+    Line l; l << "C06" << "lm" << file << cls << op << arg << m.getDiscount();
+    std::string err = guarded(fn);
+    l << "|" << err << m.getDiscount(); rows(l, m); l.emit();
+    stat(std::string("lm:") + op + ":" + err);
+}
+template <class M, class Make> static std::unique_ptr<M> lmCtor(const char * file, const char * cls, double d, Make && make) {
+    std::unique_ptr<M> m;
+    Line l; l << "C06" << "lm" << file << cls << "ctor" << d << 0.0;
+    std::string err = guarded([&] { m = make(d); });
+    l << "|" << err << (m ? m->getDiscount() : 0.0);
+    return (l << (size_t)0, l.emit(), stat(std::string("lm:ctor:") + err), std::move(m));
+}
+template <class E, class M> static void learnedFlat(Rng & rng, const char * file, const char * cls, bool hasSyncSA) {
+    size_t S = (size_t)rng.range(1, 4), A = (size_t)rng.range(1, 3);
+    E exp(S, A);
+    auto rec = [&] { exp.record(rng.below(S), rng.below(A), rng.below(S), verif::dyadicReward(rng)); };
+    for (int i = (int)rng.below(6); i > 0; --i) rec();
+    auto m = lmCtor<M>(file, cls, makeDiscount(rng, false), [&](double d) { if constexpr (std::is_constructible_v<M, const E &, double, bool>) return std::make_unique<M>(exp, d, rng.coin()); else return std::make_unique<M>(exp, d); });
+    if (!m) m = lmCtor<M>(file, cls, 0.75, [&](double d) { if constexpr (std::is_constructible_v<M, const E &, double, bool>) return std::make_unique<M>(exp, d, true); else return std::make_unique<M>(exp, d); });
+    auto rows = [](Line & l, const M & mm) { lmRowsFlat(l, mm); };
+    for (int i = (int)rng.range(3, 10); i > 0; --i) {
+        switch (rng.below(4)) {
+            case 0: { double d = makeDiscount(rng, false); lmOp(file, cls, "setDiscount", d, *m, rows, [&] { m->setDiscount(d); }); break; }
+            case 1: rec(); rec(); lmOp(file, cls, "record", 0.0, *m, rows, [&] {}); break;
+            case 2: lmOp(file, cls, "sync", 0.0, *m, rows, [&] { m->sync(); }); break;
+            case 3: { size_t s = rng.below(S), a = rng.below(A); exp.record(s, a, rng.below(S), 0.5);
+                      lmOp(file, cls, "syncSA", 0.0, *m, rows, [&] { if (hasSyncSA) m->sync(s, a); else m->sync(); }); break; }
+        }
+    }
+}
+template <class M> static void learnedCoop(Rng & rng, const char * file, const char * cls, bool mle) {
+    auto g = smallGraph();
+    FM::CooperativeExperience exp(g);
+    const auto & S = g.getS(); const auto & A = g.getA();
+    auto rec = [&] { F::State s(S.size()), s1(S.size()); F::Action a(A.size());
+        for (size_t q = 0; q < S.size(); ++q) { s[q] = rng.below(S[q]); s1[q] = rng.below(S[q]); }
+        for (size_t q = 0; q < A.size(); ++q) a[q] = rng.below(A[q]);
+        F::Rewards rw(S.size()); for (auto & x : rw) x = verif::dyadicReward(rng);
+        exp.record(s, a, s1, rw); };
+    for (int i = (int)rng.below(6); i > 0; --i) rec();
+    auto make = [&](double d) { if constexpr (std::is_constructible_v<M, const FM::CooperativeExperience &, double, bool>) return std::make_unique<M>(exp, d, rng.coin()); else return std::make_unique<M>(exp, d); };
+    auto m = lmCtor<M>(file, cls, makeDiscount(rng, false), make);
+    if (!m) m = lmCtor<M>(file, cls, 0.75, make);
+    auto rows = [](Line & l, const M & mm) { lmRowsCoop(l, mm); };
+    for (int i = (int)rng.range(3, 8); i > 0; --i) {
+        switch (rng.below(3)) {
+            case 0: { double d = makeDiscount(rng, false); lmOp(file, cls, "setDiscount", d, *m, rows, [&] { m->setDiscount(d); }); break; }
+            case 1: rec(); rec(); lmOp(file, cls, "record", 0.0, *m, rows, [&] {}); break;
+            case 2: lmOp(file, cls, "sync", 0.0, *m, rows, [&] { m->sync(); }); break;
+        }
+    }
+    (void)mle;
+}
+static void learnedCase(Rng & rng) {
+    learnedFlat<MDP::Experience, MDP::MaximumLikelihoodModel<MDP::Experience>>(rng, "include/AIToolbox/MDP/MaximumLikelihoodModel.hpp", "MaximumLikelihoodModel", true);
+    learnedFlat<MDP::SparseExperience, MDP::SparseMaximumLikelihoodModel<MDP::SparseExperience>>(rng, "include/AIToolbox/MDP/SparseMaximumLikelihoodModel.hpp", "SparseMaximumLikelihoodModel", true);
+    learnedFlat<MDP::Experience, MDP::ThompsonModel<MDP::Experience>>(rng, "include/AIToolbox/MDP/ThompsonModel.hpp", "ThompsonModel", true);
+    learnedCoop<FM::CooperativeMaximumLikelihoodModel>(rng, "src/Factored/MDP/CooperativeMaximumLikelihoodModel.cpp", "CooperativeMaximumLikelihoodModel", true);
+    learnedCoop<FM::CooperativeThompsonModel>(rng, "src/Factored/MDP/CooperativeThompsonModel.cpp", "CooperativeThompsonModel", false);
+}
+
+// ------------------------------------------------------------------------------------------ conversion chains
+// one converting-constructor call  Target(src)  as a `ctor … copy` line; returns the object (null when rejected)
+template <class Target, class Src> static std::unique_ptr<Target> convertLine(const Src & src) {
+    std::unique_ptr<Target> obj;
+    Line l; l << "C06" << "ctor"; kinds<Target>(l); l << false << "copy";
+    dumpSrc(l, src, false);
+    std::string err = guarded([&] { obj.reset(new Target(src)); });
+    l << "|" << err; if (obj) dumpState(l, *obj); l.emit();
+    stat(std::string("chain_step:") + err);
+    return obj;
+}
+// a valid row with k entries below the storage threshold
+static V1 manySubRow(Rng & rng, size_t n, size_t k, double eps) {
+    V1 r(n, 0.0);
+    size_t big = rng.below(n);
+    for (size_t i = 0, c = 0; i < n && c < k; ++i) if (i != big) { r[i] = eps; ++c; }
+    double rest = 1.0; for (size_t i = 0; i < n; ++i) if (i != big) rest -= r[i];
+    if (n > k + 1 && rng.coin()) { size_t j = (big + 1) % n; while (r[j] != 0.0) j = (j + 1) % n; if (j != big) { r[j] = 0.25; rest -= 0.25; } }
+    r[big] = rest;
+    return r;
+}
+// generic (user-defined, probability-query-only) -> dense -> sparse -> dense, and generic -> sparse
+static void chainCase(Rng & rng) {
+    size_t S = (size_t)rng.range(3, 40), A = (size_t)rng.range(1, 2);
+    static const double epss[] = {9e-7, 4e-7, 1e-7, 2.5e-7};
+    GenericMdp g; g.S = S; g.A = A; g.d = makeDiscount(rng, true);
+    g.T.assign(S, V2(A)); g.R.assign(S, V2(A, V1(S)));
+    int rmode = (int)rng.below(3);
+    int budget = (int)rng.below(3);        // 0: nothing below the threshold; 1: dropped mass per row <= 8e-7 (sparse accepts); 2: anything
+    for (size_t s = 0; s < S; ++s) for (size_t a = 0; a < A; ++a) {
+        double eps = epss[rng.below(4)];
+        size_t k = rng.coin(1, 3) ? 0 : (size_t)rng.below(S);     // number of sub-threshold entries
+        if (budget == 0) k = 0;
+        if (budget == 1) k = std::min(k, (size_t)(8e-7 / eps));
+        g.T[s][a] = manySubRow(rng, S, k, eps);
+        for (size_t s1 = 0; s1 < S; ++s1) g.R[s][a][s1] = makeReward(rng, rmode);
+    }
+    stat("chain:start");
+    auto d = convertLine<MDP::Model>(g);
+    convertLine<MDP::SparseModel>(g);
+    if (!d) return;
+    auto sp = convertLine<MDP::SparseModel>(*d);
+    if (!sp) return;
+    auto d2 = convertLine<MDP::Model>(*sp);
+    if (d2) stat("chain:complete");
+}
+// fixed shape (caught a seeded change that validated the READ row instead of the STORED row in SparseModel(const M&)):
+// a 400-state row with 300 entries of 9e-7 — valid as supplied, 2.7e-4 short of one as stored
+static void bigRowCase() {
+    const size_t S = 400;
+    GenericMdp g; g.S = S; g.A = 1; g.d = 0.5;
+    g.T.assign(S, V2(1, V1(S, 0.0))); g.R.assign(S, V2(1, V1(S, 0.0)));
+    for (size_t s = 0; s < S; ++s) g.T[s][0][s] = 1.0;
+    for (size_t i = 0; i < 300; ++i) g.T[0][0][i + 1] = 9e-7;
+    g.T[0][0][0] = 1.0 - 300 * 9e-7;
+    auto d = convertLine<MDP::Model>(g);            // dense: accepted
+    convertLine<MDP::SparseModel>(g);               // sparse from generic: must be rejected (stored row)
+    if (d) convertLine<MDP::SparseModel>(*d);       // sparse from the dense library model: must be rejected too
+}
+
 // ------------------------------------------------------------------------------------------ witnesses (lowest indices)
 static void witnessCases(long idx) {
     if (idx == 0) {           // NaN discount through the setter; invalid discount through the basic constructor
@@ -561,6 +698,8 @@ static void witnessCases(long idx) {
         Rng r1(777), r2(778); coopCase(r1, 1); coopCase(r2, 2);   // CooperativeModel constructor: discount 2.0 and NaN
     } else if (idx == 2) {    // AMDP with buckets nobody visits: dense R(s,a) = 0/0
         Rng rng(12345); amdpCase<false>(rng, 1); Rng rng2(12345); amdpCase<true>(rng2, 1);
+        // single-state POMDP, 3 entropy buckets: the discretizer computes 0/0 and casts NaN to size_t
+        Rng rng3(999); amdpCase<false>(rng3, 1, 1, 3); Rng rng4(999); amdpCase<true>(rng4, 1, 1, 3);
     } else if (idx == 3) {    // sparse storage of a valid table whose sub-threshold entries add up to more than the tolerance
         V3 t(1, V2(1)); t[0][0] = {1.0 - 2.7e-6, 9e-7, 9e-7, 9e-7};
         V3 t4(4, V2(1)); for (size_t s = 0; s < 4; ++s) { t4[s][0] = {0, 0, 0, 0}; t4[s][0][s] = 1.0; } t4[0][0] = t[0][0];
@@ -575,8 +714,9 @@ long verif_ncases(const std::string & tier) { return tier == "thorough" ? 16000 
 void verif_case(Rng & rng, long idx, const std::string & tier) {
     if (idx < 4) { witnessCases(idx); return; }
     if (idx == 4) { discCase(rng); return; }
+    if (idx == 5) { bigRowCase(); return; }
     switch (idx % 16) {
-        case 0: isprobCase(rng); break;
+        case 0: isprobCase(rng); learnedCase(rng); break;
         case 1: amdpCase<false>(rng, idx); break;
         case 2: amdpCase<true>(rng, idx); break;
         case 3: pushCase(rng); pushCase(rng); break;
@@ -587,7 +727,7 @@ void verif_case(Rng & rng, long idx, const std::string & tier) {
         case 8: case 14: historyCase<POMDP::SparseModel<MDP::SparseModel>>(rng, tier); break;
         case 9: historyCase<POMDP::Model<MDP::SparseModel>>(rng, tier); break;
         case 10: historyCase<POMDP::SparseModel<MDP::Model>>(rng, tier); break;
-        case 15: if (idx % 32 == 15) historyCase<MDP::Model>(rng, tier); else historyCase<MDP::SparseModel>(rng, tier); break;
+        case 15: chainCase(rng); chainCase(rng); break;
     }
 }
 }
